@@ -1,5 +1,5 @@
 (* A decoder + small-step semantics for exactly the x86 encodings goom emits
-   (NOP; REX.W MOV r64,imm64; JMP [r64]; JMP rel32; and the i386 MOV r32,imm32).
+   (NOP; REX.W MOV r64,imm64; JMP [r64]; JMP [RIP+disp32]; JMP rel32; and the i386 MOV r32,imm32).
    Validated against the Go toolchain's x86asm by the harness (check C15), not trusted blindly. *)
 From Goom Require Import Base.MachineInt.
 Open Scope Z_scope.
@@ -8,7 +8,8 @@ Inductive ins :=
 | Nop
 | MovImm (r : Z) (imm : Z)      (* r = register number 0..7 (REX.B = 0) *)
 | JmpInd (r : Z)                (* jmp qword/dword ptr [r] , mod=00, no SIB/disp *)
-| JmpRel (d : Z).               (* signed displacement, relative to next instruction *)
+| JmpRel (d : Z)                (* signed displacement, relative to next instruction *)
+| JmpRipInd (d : Z).            (* 64-bit mode: jmp qword ptr [rip+d], d relative to the next instruction *)
 
 Record mstate := { rip : Z; regs : Z -> Z; mem : Z -> Z }.
 
@@ -33,7 +34,13 @@ Definition decode (mode : Z) (bs : list Z) : option (ins * Z) :=
       | m :: _ =>
         (* mod=00 reg=/4 rm not in {4 (SIB), 5 (disp32 / RIP)} *)
         if (Z.land m 248 =? 32) && negb (Z.land m 7 =? 4) && negb (Z.land m 7 =? 5)
-        then Some (JmpInd (Z.land m 7), 2) else None
+        then Some (JmpInd (Z.land m 7), 2)
+        else if (mode =? 64) && (m =? 37) then     (* FF 25 disp32: mod=00 reg=/4 rm=101 = RIP-relative in 64-bit mode *)
+          match r0 with
+          | _ :: d0 :: d1 :: d2 :: d3 :: _ => Some (JmpRipInd (wraps 32 (le [d0;d1;d2;d3])), 6)
+          | _ => None
+          end
+        else None
       | _ => None
       end
     else if b0 =? 233 then
@@ -58,6 +65,7 @@ Definition exec (mode : Z) (s : mstate) (i : ins) (len : Z) : mstate :=
   | MovImm r v => {| rip := wrapu mode (rip s + len); regs := upd (regs s) r v; mem := mem s |}
   | JmpInd r => {| rip := memw mode (mem s) (regs s r); regs := regs s; mem := mem s |}
   | JmpRel d => {| rip := wrapu mode (rip s + len + d); regs := regs s; mem := mem s |}
+  | JmpRipInd d => {| rip := memw mode (mem s) (wrapu mode (rip s + len + d)); regs := regs s; mem := mem s |}
   end.
 
 Definition step (mode : Z) (s : mstate) : option mstate :=
